@@ -550,6 +550,24 @@ def _chain(interp, args, kwargs):
     return out
 
 
+def _chain_from_iterable(interp, args, kwargs):
+    outer = interp.get_iter(args[0])
+
+    def gen():
+        while True:
+            ok, inner = interp.next_value(outer)
+            if not ok:
+                return
+            it_ = interp.get_iter(inner)
+            while True:
+                ok2, v = interp.next_value(it_)
+                if not ok2:
+                    break
+                yield v
+
+    return AIter(gen(), "chain")
+
+
 def _singledispatch(interp, args, kwargs):
     sd = SingleDispatch(args[0])
     sd.shared = interp.init_depth > 0
@@ -855,6 +873,7 @@ _EXT = {
     "collections.OrderedDict": _ordereddict,
     "collections.deque": _deque,
     "itertools.chain": _chain,
+    "itertools.chain.from_iterable": _chain_from_iterable,
     "functools.singledispatch": _singledispatch,
     "contextvars.ContextVar": _contextvar,
     "google.protobuf.proto.parse_length_prefixed": _parse_length_prefixed,
@@ -888,6 +907,10 @@ _EXT = {
 }
 
 EXT_CONSTANTS = {
+    "io.DEFAULT_BUFFER_SIZE": 8192,
+    "io.SEEK_CUR": 1,
+    "io.SEEK_SET": 0,
+    "io.SEEK_END": 2,
     "os.SEEK_CUR": 1,
     "os.SEEK_SET": 0,
     "os.SEEK_END": 2,
@@ -1763,10 +1786,22 @@ def getslice(interp, base: Any, lo: Any, hi: Any, step: Any) -> Any:
         return base.attrs["data"][lo:hi:step]
     if isinstance(base, Obj) and base.tuple_items is not None:
         return base.tuple_items[lo:hi:step]
+    if isinstance(base, Obj) and isinstance(base.attrs.get("data"), AList) and all(x is None or isinstance(x, int) for x in (lo, hi, step)):
+        # UserList slicing returns a new instance of the same class over the sliced data
+        c = Obj(base.cls, dict(base.attrs))
+        c.attrs["data"] = AList(base.attrs["data"].items[lo:hi:step])
+        return c
     return fresh_unknown("slice")
 
 
 def setitem(interp, base: Any, idx: Any, val: Any) -> None:
+    if isinstance(idx, slice):
+        tgt = base.attrs["data"] if isinstance(base, Obj) and isinstance(base.attrs.get("data"), AList) else base
+        if isinstance(tgt, AList):
+            _mut(interp, tgt, "setslice")
+            tgt.items[idx] = interp.drain(val)
+            return
+        raise interp.unsupported(f"slice assignment on {base!r}")
     if isinstance(base, AList):
         if isinstance(idx, Unknown):
             interp.emit("mutate", target=base, op="setitem-unknown-index", shared=base.shared and interp.init_depth == 0)
@@ -1801,6 +1836,15 @@ def setitem(interp, base: Any, idx: Any, val: Any) -> None:
 
 
 def delitem(interp, base: Any, idx: Any) -> None:
+    if isinstance(idx, slice):
+        tgt = base.attrs["data"] if isinstance(base, Obj) and isinstance(base.attrs.get("data"), AList) else base
+        if isinstance(tgt, AList):
+            _mut(interp, tgt, "delslice")
+            if isinstance(base, Obj):
+                interp.emit("flow", obj=base, op="delslice", n=len(tgt.items), added=0)
+            del tgt.items[idx]
+            return
+        raise interp.unsupported(f"slice deletion on {base!r}")
     if isinstance(base, ADict):
         i = dict_find(interp, base, idx)
         if i is None:
